@@ -1,4 +1,5 @@
 import CloakModel.Model.StreamPipeDeadline
+import CloakModel.Gen.Backlog
 
 /-! # C01 with read deadlines: the byte pipe of an ordered stream on a virtual clock
 
@@ -22,6 +23,10 @@ theorem gen_deadline_sp :
     Gen.Deadline.spDeadlineOrder = true ∧ Gen.Deadline.spSetDeadlineWakes = true ∧ Gen.Deadline.spTimerArms = true ∧
     Gen.StreamClose.pipeEOFFirst = true ∧ Gen.StreamClose.pipeDataBeforeWait = true ∧
     Gen.StreamClose.pipeCloseSetsAndBroadcasts = true ∧ Gen.StreamClose.pipeWriteRefusesClosed = true := by decide
+
+/-- no method of the pipes replaces, resets or truncates the byte buffer: the model's `buf` changes only by `Write` appending
+and `Read` taking from the front (seed C01-8) -/
+theorem gen_pipe_buf_stable : Gen.Backlog.pipeBufNeverReplaced = true := by decide
 
 theorem gen_timed_out (d now : Nat) : Gen.Deadline.spTimedOut ((d : Int) - (now : Int)) = true ↔ d ≤ now := by
   unfold Gen.Deadline.spTimedOut
